@@ -215,6 +215,9 @@ var (
 // RunawayPanic is raised by the sequential hook when the budget of the current call is exhausted.
 type RunawayPanic struct{}
 
+// BeginCall restarts the lock-site budget; monitors that call avfs directly (not through Exec) use it before each call.
+func BeginCall() { callStart.Store(LockEvents.Load()) }
+
 // CheckRunaway is called by the sequential lock hook.
 func CheckRunaway() {
 	n := LockEvents.Add(1)
